@@ -33,7 +33,8 @@ func (k Keeper) rewardFromFees(ctx sdk.Ctx, previousProposer sdk.Address) {
 	// get the validator structure
 	proposerValidator := k.Validator(ctx, previousProposer)
 	if proposerValidator != nil {
-		propRewardCoins := sdk.NewCoins(sdk.NewCoin(k.StakeDenom(ctx), totalReward))
+		// the proposer receives everything that was collected, whatever the denomination
+		propRewardCoins := feesCollected
 		// send to validator
 		if err := k.authKeeper.SendCoinsFromModuleToAccount(ctx, types.ModuleName,
 			sdk.Address(proposerValidator.GetAddress()), propRewardCoins); err != nil {
